@@ -74,6 +74,38 @@ func c39History(r *rand.Rand, n int, withEmpty bool) []c39Msg {
 	return h
 }
 
+// c39SkewDates keeps the ids strictly descending but makes the dates NOT monotone
+// in the ids: random local swaps, one message with a much newer and one with a
+// much older date (clock skew, imported / scheduled messages), runs of equal dates.
+func c39SkewDates(r *rand.Rand, h []c39Msg) []c39Msg {
+	h = append([]c39Msg{}, h...)
+	n := len(h)
+	if n < 2 {
+		return h
+	}
+	for k := 0; k < 1+n/3; k++ {
+		i := r.IntN(n - 1)
+		j := min(n-1, i+1+r.IntN(3))
+		h[i].Date, h[j].Date = h[j].Date, h[i].Date
+	}
+	switch r.IntN(3) {
+	case 0:
+		h[r.IntN(n)].Date += 100000 // much newer than its neighbours
+	case 1:
+		h[r.IntN(n)].Date -= 100000 // much older
+	default:
+		h[r.IntN(n)].Date += 100000
+		h[r.IntN(n)].Date -= 100000
+	}
+	if r.IntN(2) == 0 {
+		i := r.IntN(n - 1)
+		for j := i; j < min(n, i+1+r.IntN(4)); j++ {
+			h[j].Date = h[i].Date
+		}
+	}
+	return h
+}
+
 type c39ReqLog struct {
 	OffsetID   int    `json:"offset_id"`
 	OffsetDate int    `json:"offset_date,omitempty"`
@@ -1053,7 +1085,8 @@ func runC39(c *mon.Ctx) {
 		"messages.messages-whenever-the-answer-reaches-the-end} x offset precedence variants {id, date, both}; Search builder (offset_id+add_offset) x 3 kinds; " +
 		"SearchGlobal builder (offset_rate/offset_peer/offset_id, next_rate fed back) x 2 kinds x {id, rate}; dialogs iterator through the real GetDialogs builder x " +
 		"{dialogsSlice, dialogs-when-complete, dialogs-at-end} x {unique dates, tied dates with (date,id,peer) lexicographic offsets}. Each run iterates to exhaustion; " +
-		"the yielded id sequence must equal the server's list; more than ceil(N/limit)+2 queries = non-termination. API arm (both tiers, signature prefix api|<mode>|): N in 0..12 (thorough 0..40) x every page size x response kinds (plus a non-paginating all-at-once server) x modes " +
+		"the yielded id sequence must equal the server's list; more than ceil(N/limit)+2 queries = non-termination. Skewed-dates arm (both tiers, tag skewed-dates): ids strictly descending but dates not monotone (local swaps, one much newer / older, equal dates), N 0..20 x every page size " +
+		"x GetHistory/Search x response kinds on the id-keyed server only, plus N 101/250. API arm (both tiers, signature prefix api|<mode>|): N in 0..12 (thorough 0..40) x every page size x response kinds (plus a non-paginating all-at-once server) x modes " +
 		"{Total before / Total+FetchTotal in the middle / after the iteration, builder.Collect, ForEach, Count}: same sequence oracle, and every Total/FetchTotal/Count value must equal N " +
 		"(not demanded for the tail-full variant). Large arm (both tiers, tag large): N in {99,100,101,120,199,200,201,250,1000} x " +
 		"page size in {1 (N<=250),7,50,99,100,101,120,128,250,1000,N-1,N,N+1} x 7 message configurations (all 4 response kinds) + 4 dialog configurations, each against a server that " +
@@ -1105,6 +1138,40 @@ func runC39(c *mon.Ctx) {
 	c.Set("grid_configs_messages", len(msgCfgs))
 	c.Set("grid_configs_dialogs", 2*len(dlgKinds))
 	c.Exhaustive(true)
+
+	// skewed-dates arm (both tiers): ids strictly descending, dates not monotone. Only for the
+	// id-keyed server (documented semantics: offset_id selects by id, offset_date is ignored when
+	// offset_id is given); variants whose position depends on dates are not used here.
+	skewCfgs := []c39MsgCfg{
+		{endpoint: "history", respKind: "slice", prec: "id"}, {endpoint: "history", respKind: "channel", prec: "id"},
+		{endpoint: "history", respKind: "full-or-slice", prec: "id"}, {endpoint: "history", respKind: "tail-full", prec: "id"},
+		{endpoint: "search", respKind: "slice", prec: "id"}, {endpoint: "search", respKind: "channel", prec: "id"},
+		{endpoint: "search", respKind: "full-or-slice", prec: "id"},
+	}
+	skewRuns := 0
+	for n := 0; n <= 20; n++ {
+		for v := 0; v < c.N(2, 8); v++ {
+			sr := c.RandN(fmt.Sprintf("c39-skew-%d", v), n)
+			hist := c39SkewDates(sr, c39History(sr, n, false))
+			for limit := 1; limit <= n+1; limit++ {
+				for _, cfg := range skewCfgs {
+					c39RunMessages(c, cfg, hist, limit, 0, "skewed-dates")
+					skewRuns++
+				}
+			}
+		}
+	}
+	for _, n := range []int{101, 250} {
+		sr := c.RandN("c39-skew-large", n)
+		hist := c39SkewDates(sr, c39History(sr, n, false))
+		for _, limit := range []int{7, 50, 100} {
+			for _, cfg := range skewCfgs[:4] {
+				c39RunMessages(c, cfg, hist, limit, 0, "skewed-dates")
+				skewRuns++
+			}
+		}
+	}
+	c.Set("skewed_dates_runs", skewRuns)
 
 	// API arm (both tiers): Total / FetchTotal before, in the middle of and after the iteration,
 	// Collect, ForEach, Count; small N, every page size, every response kind incl. a
